@@ -1170,7 +1170,8 @@ def rule_bitmap_accumulation(ctx, P, r):
             for phi in [i for i in h.insts if i.op == 'phi' and not i.ty.endswith('*')]:
                 inits = [v for v, l in phi.incoming if fn.blocks[l] not in body]
                 lat = [v for v, l in phi.incoming if fn.blocks[l] in body]
-                if inits != ['0'] or not lat or not any(has_bit(fn, v) for v in lat):
+                # (the bitmap starts empty, or with the bits of iterations peeled off in front of the loop)
+                if not inits or not all(v == '0' or has_bit(fn, v) for v in inits) or not lat or not any(has_bit(fn, v) for v in lat):
                     continue
                 inst = f'{name}: bitmap {phi.res} assembled in the loop at line {h.insts[-1].line}'
                 if all(depends(fn, v, phi.res) for v in lat):
